@@ -215,6 +215,7 @@ def answer (l : String) : String :=
 structure HState where
   table : RelTable := []
   alp : AlpState := {}
+  osv : OsvState := {}
 
 def parseOutcome (s : String) : Option RelOutcome :=
   if s == "s" then some .skip
@@ -288,6 +289,14 @@ def answerH (st : HState) (l : String) : HState × String :=
     (match cs.mapM toB with
     | some cs => (st, showHistOut (histStep st.table (.parse cs)).2)
     | none => (st, "bad-op"))
+  | ["osvf", "new"] => ({ st with osv := {} }, "ok")
+  | ["osvf", "f"] => let (a, o) := osvStep st.osv .fault; ({ st with osv := a }, showAlpOut o)
+  | ["osvf", "l", etag, ok, lines] =>
+    (match toB etag, bool? ok, (if lines == "-" then some [] else (lines.splitOn ",").mapM toB) with
+    | some etag, some ok, some lines =>
+      let (a, o) := osvStep st.osv (.listing etag lines ok)
+      ({ st with osv := a }, showAlpOut o)
+    | _, _, _ => (st, "bad-op"))
   | ["alp", "new"] => ({ st with alp := {} }, "ok")
   | ["alp", "f"] => let (a, o) := alpStep st.alp .stampFault; ({ st with alp := a }, showAlpOut o)
   | ["alp", "n"] => let (a, o) := alpStep st.alp .notModified; ({ st with alp := a }, showAlpOut o)
